@@ -37,13 +37,17 @@ Skip(bs, p, inC) ==
 RECURSIVE TokEnd(_, _)
 TokEnd(bs, p) == IF p > Len(bs) \/ bs[p] \in WS THEN p ELSE TokEnd(bs, p + 1)
 
-\* value of the all-digit token bs[p..q-1]; -1 if empty, non-digit or too long
+\* value of the all-digit token bs[p..q-1]; -1 if empty, non-digit or more than 9 significant digits
 RECURSIVE NumVal(_, _, _, _)
 NumVal(bs, p, q, acc) ==
   IF p >= q THEN acc
   ELSE IF ~IsDigit(bs[p]) THEN -1
   ELSE NumVal(bs, p + 1, q, acc * 10 + (bs[p] - 48))
-Num(bs, p, q) == IF q <= p \/ q - p > 9 THEN -1 ELSE NumVal(bs, p, q, 0)
+\* (leading zeros do not count: "007" and "00000000003" are 7 and 3, "000" is 0)
+RECURSIVE StripZeros(_, _, _)
+StripZeros(bs, p, q) == IF p < q - 1 /\ bs[p] = 48 THEN StripZeros(bs, p + 1, q) ELSE p
+Num(bs, p, q) == IF q <= p THEN -1
+                 ELSE LET a == StripZeros(bs, p, q) IN IF q - a > 9 THEN -1 ELSE NumVal(bs, a, q, 0)
 
 \* A field: at least one whitespace byte at p, then whitespace/comments, then
 \* an all-digit token terminated by whitespace or end of input.
